@@ -238,7 +238,7 @@ def fields_of(desc):
 
 
 def mentions_field(desc, adt, name):
-    return any(a == adt and n == name for a, n in fields_of(desc))
+    return any((a == adt or a == "?upvar") and n == name for a, n in fields_of(desc))
 
 
 def recv_desc(body, term, transparent=TRANSPARENT):
